@@ -5,6 +5,7 @@ package main
 // `go test -overlay` from the engine module (never inside /repo).
 
 import (
+	"strconv"
 	"bytes"
 	"encoding/json"
 	"fmt"
@@ -90,6 +91,32 @@ func concretise(draws []interp.Draw, model map[string]string) ([]map[string]inte
 			}
 		} else if d.Sort == "str" && d.Term == "" {
 			e["str"] = ""
+		}
+		if d.Kind == "bytes" || d.Kind == "date" || d.Kind == "clock" {
+			// comma-separated Int terms: bytes as hex, calendar fields as decimal numbers
+			var vals []string
+			var hexs strings.Builder
+			if d.Term != "" {
+				for _, tm := range strings.Split(d.Term, ",") {
+					n := int64(0)
+					if raw, ok := model[tm]; ok {
+						if mv, err := interp.ParseModelValue(raw); err == nil {
+							n = mv.I
+						}
+					} else if v, err := strconv.ParseInt(tm, 10, 64); err == nil {
+						n = v
+					}
+					vals = append(vals, strconv.FormatInt(n, 10))
+					fmt.Fprintf(&hexs, "%02x", byte(n))
+				}
+			}
+			if d.Kind == "bytes" {
+				e["str"] = hexs.String()
+			} else {
+				e["str"] = strings.Join(vals, ",")
+			}
+			out = append(out, e)
+			continue
 		}
 		if d.Kind == "runestr" {
 			var sb strings.Builder
